@@ -1,17 +1,32 @@
 //go:build verif
 
+// verif-c15: correspondence harness + direct property oracles for C15 (entity versioning / OCC) and C19 (tag mappings,
+// flood limits). It drives the REAL metadata.DBV2 on real SQLite with an fsbinlog on a temp dir and a scripted clock.
+//
+//	-mode=c15   entity-heavy histories; every 8th case is a concurrent race (identical requests from 8 goroutines)
+//	-mode=c19   mapping-heavy histories with random budgets/clock; every 6th case is a pure calcBudget/roundTime stream
+//
+// Token rendering (the Lean model only sees tokens): entity name ⟨ns,loc⟩ = "w<ns>:w<loc>" / "w<loc>", data tag t with
+// length n = "d<t>" padded with 'x' to n bytes, metadata m = "u<m>" ("" for 0), mapping key k = "k<k>", metric 0 = "abc2",
+// metric m = "m<m>".
 package main
 
 import (
 	"context"
+	"errors"
 	"fmt"
 	"io"
 	"log"
 	"os"
+	"sort"
+	"strconv"
+	"strings"
+	"sync"
 	"time"
 
-	"github.com/VKCOM/statshouse/internal/format"
+	"github.com/VKCOM/statshouse/internal/data_model/gen2/tlmetadata"
 	"github.com/VKCOM/statshouse/internal/metadata"
+	"github.com/VKCOM/statshouse/internal/verifx"
 	"github.com/VKCOM/statshouse/internal/vkgo/binlog/fsbinlog"
 )
 
@@ -23,50 +38,1199 @@ func (nolog) Infof(string, ...interface{})  {}
 func (nolog) Warnf(string, ...interface{})  {}
 func (nolog) Errorf(string, ...interface{}) {}
 
+const two32 = int64(1) << 32
+
+// ------------------------------------------------------------------ token rendering
+
+type name struct{ ns, loc int }
+
+func (n name) str() string {
+	if n.ns == 0 {
+		return fmt.Sprintf("w%d", n.loc)
+	}
+	return fmt.Sprintf("w%d:w%d", n.ns, n.loc)
+}
+func (n name) tok() string { return fmt.Sprintf("%d:%d", n.ns, n.loc) }
+
+func nameTok(s string) string {
+	parts := strings.Split(s, ":")
+	num := func(p string) (int, bool) {
+		if len(p) < 2 || p[0] != 'w' {
+			return 0, false
+		}
+		v, err := strconv.Atoi(p[1:])
+		return v, err == nil
+	}
+	switch len(parts) {
+	case 1:
+		if v, ok := num(parts[0]); ok {
+			return fmt.Sprintf("0:%d", v)
+		}
+	case 2:
+		a, ok1 := num(parts[0])
+		b, ok2 := num(parts[1])
+		if ok1 && ok2 {
+			return fmt.Sprintf("%d:%d", a, b)
+		}
+	}
+	return "?" + s
+}
+
+func dataStr(tag, n int) string {
+	s := fmt.Sprintf("d%d", tag)
+	if n > len(s) {
+		s += strings.Repeat("x", n-len(s))
+	}
+	return s
+}
+func dataTok(s string) string {
+	i := 1
+	for i < len(s) && s[i] >= '0' && s[i] <= '9' {
+		i++
+	}
+	if len(s) < 2 || s[0] != 'd' {
+		return "?" + s
+	}
+	return fmt.Sprintf("%s/%d", s[1:i], len(s))
+}
+func metaStr(m int) string {
+	if m == 0 {
+		return ""
+	}
+	return fmt.Sprintf("u%d", m)
+}
+func metaTok(s string) string {
+	if s == "" {
+		return "0"
+	}
+	return strings.TrimPrefix(s, "u")
+}
+func keyStr(k int) string { return fmt.Sprintf("k%d", k) }
+func keyTok(s string) string {
+	return strings.TrimPrefix(s, "k")
+}
+func metricStr(m int) string {
+	if m == 0 {
+		return "abc2"
+	}
+	return fmt.Sprintf("m%d", m)
+}
+func metricTok(s string) int {
+	if s == "abc2" {
+		return 0
+	}
+	v, _ := strconv.Atoi(strings.TrimPrefix(s, "m"))
+	return v
+}
+
+func classify(err error) string {
+	msg := err.Error()
+	switch {
+	case errors.Is(err, metadata.VerifErrInvalidVersion):
+		return "invalid-version"
+	case errors.Is(err, metadata.VerifErrExists):
+		return "exists"
+	case errors.Is(err, metadata.VerifErrNamespaceMissing):
+		return "ns-missing"
+	case strings.Contains(msg, "can't rename namespace"):
+		return "rename-ns"
+	case strings.Contains(msg, "UNIQUE constraint failed"):
+		return "constraint"
+	}
+	return "other:" + strings.ReplaceAll(msg, " ", "_")
+}
+
+func eventTok(e tlmetadata.Event) string {
+	return fmt.Sprintf("%d:%d:%s:%d:%d:%d:%d:%s", e.Id, e.Version, nameTok(e.Name), e.EventType, e.NamespaceId, e.UpdateTime, e.Unused, dataTok(e.Data))
+}
+
+// ------------------------------------------------------------------ the system under test
+
+type sut struct {
+	h   *verifx.H
+	dir string
+	db  *metadata.DBV2
+	now int64
+	ctx context.Context
+
+	maxBudget, bonus, globalBudget int64
+	step                           uint32
+
+	// ---- C15 oracle bookkeeping, built ONLY from what the real code returned
+	cur      map[int64]int64  // entity id -> current version
+	typ      map[int64]int32  // entity id -> type at creation
+	nm       map[int64]string // entity id -> current name
+	nsName   map[int64]string // namespace-typed id -> name it was created with
+	tainted  map[int64]bool   // rows hit by an edit whose request type differs from the row type
+	maxVer   int64
+	versions map[int64]bool
+
+	// ---- C19 oracle bookkeeping
+	shadow      map[string]int32 // key -> id according to the explicit operations and the real replies
+	everID      map[int32]bool   // ids that were ever present
+	lastCreated int32
+	env         map[int]*envelope
+
+	flags map[string]bool
+}
+
+type envelope struct {
+	e int64
+	k int64
+}
+
+func openSut(h *verifx.H, maxBudget int64, step uint32, bonus, globalBudget int64, now int64) *sut {
+	// tmpfs when available: every write op waits for the binlog fsync (DurabilityMode WaitCommit)
+	dir, err := os.MkdirTemp("/dev/shm", "verif-c15-")
+	if err != nil {
+		dir, err = os.MkdirTemp("", "verif-c15-")
+	}
+	if err != nil {
+		panic(err)
+	}
+	bo := fsbinlog.Options{PrefixPath: dir, Magic: 3456}
+	if _, err := fsbinlog.CreateEmptyFsBinlog(bo); err != nil {
+		panic(err)
+	}
+	bl, err := fsbinlog.NewFsBinlog(nolog{}, bo)
+	if err != nil {
+		panic(err)
+	}
+	x := &sut{h: h, dir: dir, now: now, ctx: context.Background(), maxBudget: maxBudget, step: step, bonus: bonus, globalBudget: globalBudget,
+		cur: map[int64]int64{}, typ: map[int64]int32{}, nm: map[int64]string{}, nsName: map[int64]string{}, tainted: map[int64]bool{},
+		versions: map[int64]bool{}, shadow: map[string]int32{}, everID: map[int32]bool{}, env: map[int]*envelope{}, flags: map[string]bool{}}
+	x.db, err = metadata.OpenDB(dir+"/db", metadata.Options{MaxBudget: maxBudget, StepSec: step, BudgetBonus: bonus, GlobalBudget: globalBudget,
+		Now: func() time.Time { return time.Unix(x.now, 0) }}, bl)
+	if err != nil {
+		panic(err)
+	}
+	h.Op("cfg %d %d %d %d", maxBudget, step, bonus, globalBudget)
+	return x
+}
+
+func (x *sut) close() {
+	_ = x.db.Close()
+	_ = os.RemoveAll(x.dir)
+}
+
+func (x *sut) guard(f func()) {
+	defer func() {
+		if r := recover(); r != nil {
+			x.h.Obs("panic %s", strings.ReplaceAll(fmt.Sprint(r), " ", "_"))
+		}
+	}()
+	f()
+}
+
+// ------------------------------------------------------------------ entity ops
+
+type saveReq struct {
+	n               name
+	id, oldVersion  int64
+	dtag, dlen      int
+	create          bool
+	del             uint32
+	typ             int32
+	meta            int
+}
+
+func (x *sut) saveOp(a saveReq) string {
+	c := 0
+	if a.create {
+		c = 1
+	}
+	return fmt.Sprintf("save %s %d %d %d %d %d %d %d %d %d", a.n.tok(), a.id, a.oldVersion, a.dtag, a.dlen, c, a.del, a.typ, a.meta, x.now)
+}
+
+func (x *sut) doSave(a saveReq) (tlmetadata.Event, error) {
+	return x.db.SaveEntity(x.ctx, a.n.str(), a.id, a.oldVersion, dataStr(a.dtag, a.dlen), a.create, a.del, a.typ, metaStr(a.meta))
+}
+
+func (x *sut) save(a saveReq) {
+	x.h.Op("%s", x.saveOp(a))
+	x.guard(func() {
+		e, err := x.doSave(a)
+		x.observeSave(a, e, err)
+	})
+}
+
+// observeSave prints the observation and evaluates the C15 property on the real reply
+func (x *sut) observeSave(a saveReq, e tlmetadata.Event, err error) {
+	h := x.h
+	if err != nil {
+		k := classify(err)
+		h.Obs("err %s", k)
+		h.Stat("save.err."+strings.SplitN(k, ":", 2)[0], 1)
+		if k == "invalid-version" || k == "ns-missing" {
+			x.flags["stale-rejected"] = true
+		}
+		return
+	}
+	prev, existed := x.cur[e.Id]
+	created := !existed
+	c := 0
+	if created {
+		c = 1
+	}
+	h.Obs("ok c=%d %s:%s", c, eventTok(e), metaTok(e.Metadata))
+	h.Stat("save.ok", 1)
+	// ---- oracle: only the current version may be edited
+	if existed && prev != a.oldVersion {
+		h.Viol("edit-stale-version-accepted", "entity %d has version %d but an edit naming version %d succeeded", e.Id, prev, a.oldVersion)
+	}
+	if existed && a.id != e.Id {
+		h.Viol("edit-wrong-entity", "request for id %d changed entity %d", a.id, e.Id)
+	}
+	// ---- oracle: new version is globally unique and greater than all previous ones
+	if e.Version <= x.maxVer || x.versions[e.Version] {
+		h.Viol("version-not-increasing", "entity %d got version %d, previous maximum %d", e.Id, e.Version, x.maxVer)
+	}
+	if e.Version > x.maxVer {
+		x.maxVer = e.Version
+	}
+	x.versions[e.Version] = true
+	// ---- oracle: namespaces cannot be renamed (requests for a namespace); rows hit by a request of another type are
+	// outside the property's quantifier and only counted
+	if existed {
+		if x.typ[e.Id] != a.typ {
+			x.tainted[e.Id] = true
+			h.Stat("save.ok.type-mismatch", 1)
+		} else if a.typ == 4 && x.nm[e.Id] != a.n.str() {
+			h.Viol("namespace-renamed", "namespace %d renamed from %q to %q", e.Id, x.nm[e.Id], a.n.str())
+		}
+		if x.nm[e.Id] != a.n.str() {
+			x.flags["renamed"] = true
+			h.Stat("save.ok.rename", 1)
+		}
+		x.flags["edited"] = true
+	} else {
+		x.typ[e.Id] = a.typ
+		if a.typ == 4 {
+			x.nsName[e.Id] = a.n.str()
+		}
+		for id, n := range x.nm {
+			_ = id
+			if n == a.n.str() {
+				x.flags["name-reuse"] = true
+			}
+		}
+	}
+	// ---- oracle: an entity in a namespace references an existing namespace
+	if (a.typ == 0 || a.typ == 2) && a.n.ns != 0 {
+		want := fmt.Sprintf("w%d", a.n.ns)
+		nsTyp, known := x.typ[e.NamespaceId]
+		if !known || nsTyp != 4 {
+			h.Viol("dangling-namespace", "entity %d (%s) saved with namespace_id %d which is not a namespace entity", e.Id, a.n.str(), e.NamespaceId)
+		} else if !x.tainted[e.NamespaceId] && x.nm[e.NamespaceId] != want {
+			h.Viol("wrong-namespace", "entity %d (%s) saved with namespace_id %d named %q", e.Id, a.n.str(), e.NamespaceId, x.nm[e.NamespaceId])
+		}
+		h.Stat("save.ok.namespaced", 1)
+	}
+	x.cur[e.Id] = e.Version
+	x.nm[e.Id] = a.n.str()
+}
+
+func (x *sut) journal(since int64, page int64) {
+	x.h.Op("journal %d %d", since, page)
+	x.guard(func() {
+		evs, err := x.db.JournalEvents(x.ctx, since, page)
+		if err != nil {
+			x.h.Obs("err %s", classify(err))
+			return
+		}
+		toks := make([]string, len(evs))
+		for i, e := range evs {
+			toks[i] = eventTok(e)
+		}
+		x.h.Obs("j %s", verifx.List(toks))
+		x.h.Stat("journal", 1)
+		x.checkJournalPage(since, evs)
+	})
+}
+
+// checkJournalPage: ascending, each entity at most once, each at its latest version, nothing older than `since`
+func (x *sut) checkJournalPage(since int64, evs []tlmetadata.Event) {
+	seen := map[int64]bool{}
+	last := since
+	for _, e := range evs {
+		if e.Version <= last {
+			x.h.Viol("journal-order", "version %d after %d (since %d)", e.Version, last, since)
+		}
+		last = e.Version
+		if seen[e.Id] {
+			x.h.Viol("journal-dup", "entity %d twice in one journal reply", e.Id)
+		}
+		seen[e.Id] = true
+		if v, ok := x.cur[e.Id]; !ok || v != e.Version {
+			x.h.Viol("journal-stale", "entity %d listed at version %d, latest is %d", e.Id, e.Version, v)
+		}
+	}
+}
+
+// journalWalk pages through the whole journal with a small page and checks that every entity with version > since
+// is delivered exactly once (reads only; the model is asked the same questions)
+func (x *sut) journalWalk(since int64, page int64) {
+	got := map[int64]int{}
+	from := since
+	for n := 0; n < 200; n++ {
+		x.h.Op("journal %d %d", from, page)
+		evs, err := x.db.JournalEvents(x.ctx, from, page)
+		if err != nil {
+			x.h.Obs("err %s", classify(err))
+			return
+		}
+		toks := make([]string, len(evs))
+		for i, e := range evs {
+			toks[i] = eventTok(e)
+			got[e.Id]++
+		}
+		x.h.Obs("j %s", verifx.List(toks))
+		x.checkJournalPage(from, evs)
+		if len(evs) == 0 {
+			break
+		}
+		from = evs[len(evs)-1].Version
+	}
+	for id, v := range x.cur {
+		if v > since && got[id] != 1 {
+			x.h.Viol("journal-missing", "entity %d (version %d > since %d) delivered %d times by paging with page=%d", id, v, since, got[id], page)
+		}
+	}
+	x.h.Stat("journal.walk", 1)
+}
+
+func (x *sut) getv(id, ver int64) {
+	x.h.Op("getv %d %d", id, ver)
+	x.guard(func() {
+		e, err := x.db.GetEntityVersioned(x.ctx, id, ver)
+		if err != nil {
+			x.h.Obs("none")
+			return
+		}
+		x.h.Obs("ev %d:%d:%s:%d:%d:%d:%s:%s", e.Id, e.Version, nameTok(e.Name), e.EventType, e.NamespaceId, e.UpdateTime, dataTok(e.Data), metaTok(e.Metadata))
+	})
+}
+
+func (x *sut) hist(id int64) {
+	x.h.Op("hist %d", id)
+	x.guard(func() {
+		r, err := x.db.GetHistoryShort(x.ctx, id)
+		if err != nil {
+			x.h.Obs("err %s", classify(err))
+			return
+		}
+		toks := make([]string, len(r.Events))
+		for i, e := range r.Events {
+			toks[i] = fmt.Sprintf("%d:%s", e.Version, metaTok(e.Metadata))
+		}
+		x.h.Obs("h %s", verifx.List(toks))
+	})
+}
+
+// ------------------------------------------------------------------ mapping ops
+
+func (x *sut) stepIdx() int64 { return (x.now % two32) / int64(x.step) }
+
+func (x *sut) envFor(m int) *envelope {
+	e := x.env[m]
+	if e == nil {
+		e = &envelope{e: x.maxBudget, k: x.stepIdx()}
+		x.env[m] = e
+	}
+	return e
+}
+
+func (x *sut) gc(m, k int) {
+	x.h.Op("gc %d %d %d", m, k, x.now)
+	x.guard(func() {
+		r, err := x.db.GetOrCreateMapping(x.ctx, metricStr(m), keyStr(k))
+		if err != nil {
+			x.h.Obs("err %s", classify(err))
+			return
+		}
+		key := keyStr(k)
+		switch {
+		case r.IsCreated():
+			c, _ := r.AsCreated()
+			x.h.Obs("created %d", c.Id)
+			x.h.Stat("gc.created", 1)
+			if id, ok := x.shadow[key]; ok {
+				x.h.Viol("mapping-changed", "key %s was mapped to %d but get-or-create created %d", key, id, c.Id)
+			}
+			if c.Id <= 0 {
+				x.h.Viol("mapping-nonpositive", "created id %d", c.Id)
+			}
+			if x.everID[c.Id] {
+				x.h.Viol("mapping-id-reused", "id %d was handed out before (key %s)", c.Id, key)
+				x.flags["reuse"] = true
+			}
+			x.flood(m, c.Id)
+			x.shadow[key] = c.Id
+			x.everID[c.Id] = true
+			x.lastCreated = c.Id
+		case r.IsGetMappingResponse():
+			g, _ := r.AsGetMappingResponse()
+			x.h.Obs("got %d", g.Id)
+			x.h.Stat("gc.got", 1)
+			if id, ok := x.shadow[key]; !ok || id != g.Id {
+				x.h.Viol("mapping-changed", "key %s expected %d (present=%v) but got %d", key, id, ok, g.Id)
+			}
+		case r.IsFloodLimitError():
+			x.h.Obs("flood")
+			x.h.Stat("gc.flood", 1)
+			x.flags["flood"] = true
+			if _, ok := x.shadow[key]; ok {
+				x.h.Viol("mapping-changed", "key %s is mapped but get-or-create answered flood limit", key)
+			}
+		default:
+			x.h.Obs("other")
+		}
+	})
+}
+
+// flood: the token-bucket envelope the property allows (see checks/C19.py). Called for every creation.
+func (x *sut) flood(m int, id int32) {
+	k := x.stepIdx()
+	skip := x.lastCreated > 0 && int64(x.lastCreated) <= x.globalBudget
+	if skip {
+		x.env[m] = &envelope{e: x.maxBudget, k: k}
+		x.h.Stat("gc.created.global-budget", 1)
+		return
+	}
+	x.flags["limited"] = true
+	e := x.envFor(m)
+	if k > e.k {
+		if e.e > x.maxBudget {
+			e.e += x.bonus * (k - e.k)
+		} else if e.e += x.bonus * (k - e.k); e.e > x.maxBudget {
+			e.e = x.maxBudget
+		}
+	} else if k < e.k && e.e < x.maxBudget {
+		e.e = x.maxBudget // clock went backwards: the property is silent, be lenient
+		x.h.Stat("gc.created.clock-backwards", 1)
+	}
+	e.k = k
+	if e.e < 1 {
+		x.h.Viol("flood-bound-exceeded", "metric %d created mapping %d with no budget left (budget=%d step=%d bonus=%d)", m, id, x.maxBudget, x.step, x.bonus)
+	}
+	e.e--
+}
+
+func (x *sut) put(ks []int, vs []int32) {
+	toks := make([]string, len(ks))
+	keys := make([]string, len(ks))
+	for i := range ks {
+		toks[i] = fmt.Sprintf("%d:%d", ks[i], vs[i])
+		keys[i] = keyStr(ks[i])
+	}
+	x.h.Op("put %s", verifx.List(toks))
+	x.guard(func() {
+		err := x.db.PutMapping(x.ctx, keys, vs)
+		if err != nil {
+			x.h.Obs("err %s", classify(err))
+			return
+		}
+		x.h.Obs("ok")
+		x.h.Stat("put", 1)
+		for i := range keys { // explicit operation: displaces whatever used the key or the id
+			for k2, id2 := range x.shadow {
+				if id2 == vs[i] || k2 == keys[i] {
+					delete(x.shadow, k2)
+				}
+			}
+			x.shadow[keys[i]] = vs[i]
+			x.everID[vs[i]] = true
+		}
+	})
+}
+
+func (x *sut) del(ids []int32) {
+	x.h.Op("del %s", verifx.List(ids))
+	x.guard(func() {
+		n, err := metadata.VerifDeleteMappings(x.db, ids)
+		if err != nil {
+			x.h.Obs("err %s", classify(err))
+			return
+		}
+		x.h.Obs("n=%d", n)
+		x.h.Stat("del", 1)
+		cnt := int32(0)
+		for k, id := range x.shadow {
+			for _, d := range ids {
+				if d == id {
+					delete(x.shadow, k)
+					cnt++
+					x.flags["deleted"] = true
+					break
+				}
+			}
+		}
+		if cnt != n {
+			x.h.Viol("delete-count", "deleted ids %v: reported %d present, %d were mapped", ids, n, cnt)
+		}
+	})
+}
+
+func (x *sut) reset(m int, limit int64) {
+	x.h.Op("reset %d %d %d", m, limit, x.now)
+	x.guard(func() {
+		before, after, err := x.db.ResetFlood(x.ctx, metricStr(m), limit)
+		if err != nil {
+			x.h.Obs("err %s", classify(err))
+			return
+		}
+		x.h.Obs("before=%d after=%d", before, after)
+		x.h.Stat("reset", 1)
+		b := x.maxBudget
+		if after > b {
+			b = after
+		}
+		x.env[m] = &envelope{e: b, k: x.stepIdx()}
+	})
+}
+
+func (x *sut) byval(k int) {
+	x.h.Op("byval %d", k)
+	x.guard(func() {
+		id, notExists, err := x.db.GetMappingByValue(x.ctx, keyStr(k))
+		if err != nil {
+			x.h.Obs("err %s", classify(err))
+			return
+		}
+		want, ok := x.shadow[keyStr(k)]
+		if notExists {
+			x.h.Obs("none")
+			if ok {
+				x.h.Viol("mapping-changed", "key %s lost (was %d)", keyStr(k), want)
+			}
+			return
+		}
+		x.h.Obs("id %d", id)
+		if !ok || want != id {
+			x.h.Viol("mapping-changed", "key %s resolves to %d, expected %d (present=%v)", keyStr(k), id, want, ok)
+		}
+	})
+}
+
+func (x *sut) byid(id int32) {
+	x.h.Op("byid %d", id)
+	x.guard(func() {
+		k, ok, err := x.db.GetMappingByID(x.ctx, id)
+		if err != nil {
+			x.h.Obs("err %s", classify(err))
+			return
+		}
+		if !ok {
+			x.h.Obs("none")
+		} else {
+			x.h.Obs("key %s", keyTok(k))
+		}
+		want := ""
+		for k2, id2 := range x.shadow {
+			if id2 == id {
+				want = k2
+			}
+		}
+		if (want != "") != ok || (ok && want != k) {
+			x.h.Viol("mapping-changed", "id %d resolves to %q (present=%v), expected %q", id, k, ok, want)
+		}
+	})
+}
+
+func (x *sut) newmaps(from int32, page int32) {
+	x.h.Op("newmaps %d %d", from, page)
+	x.guard(func() {
+		ms, maxID, err := x.db.GetNewMappings(x.ctx, from, page, nil)
+		if err != nil {
+			x.h.Obs("err %s", classify(err))
+			return
+		}
+		toks := make([]string, len(ms))
+		for i, m := range ms {
+			toks[i] = fmt.Sprintf("%d:%s", m.Value, keyTok(m.Str))
+		}
+		x.h.Obs("m %s max=%d", verifx.List(toks), maxID)
+	})
+}
+
+// ------------------------------------------------------------------ dump + state oracles
+
+func (x *sut) dump() {
+	x.h.Op("dump")
+	x.guard(func() {
+		st, err := metadata.VerifDump(x.db)
+		if err != nil {
+			x.h.Obs("err %s", classify(err))
+			return
+		}
+		vers := map[int64]int64{}
+		names := map[string]int64{}
+		for _, e := range st.Entities {
+			x.h.Obs("E %d:%d:%s:%d:%d:%d:%d:%s", e.ID, e.Version, nameTok(e.Name), e.Type, e.NamespaceID, e.UpdatedAt, e.DeletedAt, dataTok(e.Data))
+			if o, dup := vers[e.Version]; dup {
+				x.h.Viol("dup-version", "entities %d and %d share version %d", o, e.ID, e.Version)
+			}
+			vers[e.Version] = e.ID
+			key := fmt.Sprintf("%d/%d/%s", e.NamespaceID, e.Type, e.Name)
+			if o, dup := names[key]; dup {
+				x.h.Viol("dup-name", "entities %d and %d share (namespace,type,name) %s", o, e.ID, key)
+			}
+			names[key] = e.ID
+			if v, ok := x.cur[e.ID]; !ok || v != e.Version {
+				x.h.Viol("version-mismatch", "entity %d stored at version %d, last successful save returned %d", e.ID, e.Version, v)
+			}
+			if e.Type == 4 && !x.tainted[e.ID] && x.nsName[e.ID] != e.Name {
+				x.h.Viol("namespace-renamed", "namespace %d is now %q, was created as %q", e.ID, e.Name, x.nsName[e.ID])
+			}
+		}
+		if len(st.Entities) != len(x.cur) {
+			x.h.Viol("entity-count", "%d rows, %d entities were created", len(st.Entities), len(x.cur))
+		}
+		hv := map[int64]bool{}
+		for _, e := range st.History {
+			x.h.Obs("H %d:%d:%s:%d:%d:%d:%d:%s:%s", e.EntityID, e.Version, nameTok(e.Name), e.Type, e.NamespaceID, e.UpdatedAt, e.DeletedAt, dataTok(e.Data), metaTok(e.Metadata))
+			if hv[e.Version] {
+				x.h.Viol("dup-version", "history holds version %d twice", e.Version)
+			}
+			hv[e.Version] = true
+		}
+		ids := map[int64]bool{}
+		keys := map[string]bool{}
+		for _, m := range st.Mappings {
+			x.h.Obs("M %d %s", m.ID, keyTok(m.Name))
+			if ids[m.ID] || keys[m.Name] {
+				x.h.Viol("mapping-not-bijective", "id %d / key %s appear twice", m.ID, m.Name)
+			}
+			ids[m.ID], keys[m.Name] = true, true
+			if want, ok := x.shadow[m.Name]; !ok || int64(want) != m.ID {
+				x.h.Viol("mapping-changed", "stored mapping %s -> %d, expected %d (present=%v)", m.Name, m.ID, want, ok)
+			}
+		}
+		if len(st.Mappings) != len(x.shadow) {
+			x.h.Viol("mapping-changed", "%d stored mappings, %d expected", len(st.Mappings), len(x.shadow))
+		}
+		sort.Slice(st.Flood, func(i, j int) bool { return metricTok(st.Flood[i].Metric) < metricTok(st.Flood[j].Metric) })
+		for _, f := range st.Flood {
+			x.h.Obs("F %d %d %d", metricTok(f.Metric), f.Last, f.Free)
+		}
+		x.h.Obs("S %d %d %d", st.SeqEntities, st.SeqMappings, st.LastMappingID)
+	})
+}
+
+// ------------------------------------------------------------------ generators
+
+func (x *sut) tick(r *verifx.Rng) {
+	switch r.Pick(50, 20, 12, 6, 6, 3, 3) {
+	case 0:
+	case 1:
+		x.now += int64(r.Range(1, int(x.step)))
+	case 2:
+		x.now += int64(x.step) * int64(r.Range(1, 3))
+	case 3:
+		x.now += int64(x.step)*int64(r.Range(4, 400)) + int64(r.Intn(int(x.step)))
+	case 4: // backwards
+		d := int64(r.Range(1, 3*int(x.step)))
+		if x.now-d > 0 {
+			x.now -= d
+			x.h.Stat("clock.backwards", 1)
+		}
+	case 5: // just below / above the uint32 wrap
+		x.now = two32 - int64(r.Range(1, 2*int(x.step)))
+		x.h.Stat("clock.near-wrap", 1)
+	case 6:
+		x.now = two32 + int64(r.Range(0, 5*int(x.step)))
+		x.h.Stat("clock.beyond-u32", 1)
+	}
+}
+
+func knownIDs(x *sut) []int64 {
+	ids := make([]int64, 0, len(x.cur))
+	for id := range x.cur {
+		ids = append(ids, id)
+	}
+	sort.Slice(ids, func(i, j int) bool { return ids[i] < ids[j] })
+	return ids
+}
+
+func (x *sut) randName(r *verifx.Rng, typ int32) name {
+	if typ == 4 {
+		if r.Chance(1, 12) {
+			return name{r.Range(1, 3), r.Range(1, 4)}
+		}
+		return name{0, r.Range(1, 4)}
+	}
+	if r.Chance(2, 5) {
+		return name{r.Range(1, 4), r.Range(1, 5)}
+	}
+	return name{0, r.Range(1, 6)}
+}
+
+func randTyp(r *verifx.Rng) int32 {
+	return []int32{0, 0, 0, 0, 2, 2, 4, 4, 4, 1, 3, 5}[r.Intn(12)]
+}
+
+func parseStrName(s string) name {
+	t := nameTok(s)
+	var n name
+	fmt.Sscanf(t, "%d:%d", &n.ns, &n.loc)
+	return n
+}
+
+func entityOp(x *sut, r *verifx.Rng, big bool) {
+	ids := knownIDs(x)
+	dl := func(tag int) int {
+		n := len(fmt.Sprintf("d%d", tag)) + r.Intn(3)
+		if big && r.Chance(1, 2) {
+			n = r.Range(200_000, 600_000)
+		}
+		return n
+	}
+	tag := r.Intn(100)
+	kind := r.Pick(22, 22, 10, 14, 6, 5, 9, 5, 10)
+	if len(ids) == 0 && kind != 6 {
+		kind = 0
+	}
+	switch kind {
+	case 0: // create
+		typ := randTyp(r)
+		a := saveReq{n: x.randName(r, typ), id: 0, oldVersion: 0, dtag: tag, dlen: dl(tag), create: true, typ: typ, meta: r.Intn(4)}
+		if r.Chance(1, 6) && len(ids) > 0 { // id and version of an existing entity are ignored by create
+			a.id = ids[r.Intn(len(ids))]
+			if a.id < 0 {
+				a.id = 0
+			}
+			a.oldVersion = x.cur[a.id]
+		}
+		x.h.Stat("gen.create", 1)
+		x.save(a)
+	case 1: // edit, current version, same name
+		id := ids[r.Intn(len(ids))]
+		a := saveReq{n: parseStrName(x.nm[id]), id: id, oldVersion: x.cur[id], dtag: tag, dlen: dl(tag), typ: x.typ[id], meta: r.Intn(4)}
+		x.h.Stat("gen.edit", 1)
+		x.save(a)
+	case 2: // edit with a stale / foreign / future version
+		id := ids[r.Intn(len(ids))]
+		a := saveReq{n: parseStrName(x.nm[id]), id: id, dtag: tag, dlen: dl(tag), typ: x.typ[id], meta: r.Intn(4)}
+		switch r.Intn(4) {
+		case 0:
+			a.oldVersion = x.cur[id] - int64(r.Range(1, 2))
+			if a.oldVersion < 0 {
+				a.oldVersion = 0
+			}
+		case 1:
+			a.oldVersion = x.cur[ids[r.Intn(len(ids))]]
+		case 2:
+			a.oldVersion = x.maxVer + int64(r.Range(1, 2))
+		case 3:
+			a.oldVersion = int64(r.Intn(int(x.maxVer) + 1))
+		}
+		if r.Chance(1, 4) {
+			a.n = x.randName(r, a.typ)
+		}
+		x.h.Stat("gen.edit-stale", 1)
+		x.save(a)
+	case 3: // rename (maybe onto a used name, maybe into a missing namespace)
+		id := ids[r.Intn(len(ids))]
+		a := saveReq{n: x.randName(r, x.typ[id]), id: id, oldVersion: x.cur[id], dtag: tag, dlen: dl(tag), typ: x.typ[id], meta: r.Intn(4)}
+		if r.Chance(1, 3) {
+			other := ids[r.Intn(len(ids))]
+			a.n = parseStrName(x.nm[other])
+		}
+		x.h.Stat("gen.rename", 1)
+		x.save(a)
+	case 4: // delete / undelete
+		id := ids[r.Intn(len(ids))]
+		a := saveReq{n: parseStrName(x.nm[id]), id: id, oldVersion: x.cur[id], dtag: tag, dlen: dl(tag), typ: x.typ[id], meta: r.Intn(4), del: uint32(r.Intn(2)) * uint32(x.now%two32)}
+		x.h.Stat("gen.delete", 1)
+		x.save(a)
+	case 5: // request of another type for an existing row
+		id := ids[r.Intn(len(ids))]
+		a := saveReq{n: parseStrName(x.nm[id]), id: id, oldVersion: x.cur[id], dtag: tag, dlen: dl(tag), typ: randTyp(r), meta: r.Intn(4)}
+		if r.Bool() {
+			a.n = x.randName(r, a.typ)
+		}
+		x.h.Stat("gen.type-mismatch", 1)
+		x.save(a)
+	case 6: // builtin (negative id): created through the edit path (namespaces only with the create flag)
+		typ := randTyp(r)
+		id := int64(-r.Range(1, 3))
+		if r.Chance(1, 3) {
+			typ = 4
+		}
+		a := saveReq{n: x.randName(r, typ), id: id, dtag: tag, dlen: dl(tag), create: r.Chance(1, 3), typ: typ, meta: r.Intn(4)}
+		if typ == 4 {
+			a.create = r.Chance(3, 4)
+			a.n = name{0, r.Range(1, 8)}
+		}
+		if v, ok := x.cur[id]; ok {
+			a.typ = x.typ[id]
+			a.oldVersion = v
+			if r.Chance(1, 2) {
+				a.n = parseStrName(x.nm[id])
+			} else {
+				a.n = x.randName(r, a.typ)
+			}
+			if a.typ == 4 {
+				if r.Bool() {
+					a.n = name{0, r.Range(1, 8)}
+				}
+				a.create = r.Bool() // "create" of an existing builtin namespace is an edit
+				x.h.Stat("gen.builtin.namespace-edit", 1)
+			}
+			if r.Chance(1, 4) {
+				a.oldVersion = int64(r.Intn(int(x.maxVer) + 1))
+			}
+		}
+		x.h.Stat("gen.builtin", 1)
+		x.save(a)
+	case 7: // create=true naming an existing name of the same type
+		id := ids[r.Intn(len(ids))]
+		a := saveReq{n: parseStrName(x.nm[id]), dtag: tag, dlen: dl(tag), create: true, typ: x.typ[id], meta: r.Intn(4)}
+		x.h.Stat("gen.create-dup", 1)
+		x.save(a)
+	case 8: // reads
+		switch r.Intn(4) {
+		case 0:
+			x.journal(int64(r.Intn(int(x.maxVer)+2)), []int64{-1, 0, 1, 2, 3, 5, 1000, 5000}[r.Intn(8)])
+		case 1:
+			x.journalWalk(int64(r.Intn(int(x.maxVer)+1)), int64(r.Range(1, 4)))
+		case 2:
+			id := ids[r.Intn(len(ids))]
+			x.getv(id, int64(r.Intn(int(x.maxVer)+2)))
+			x.getv(id, x.cur[id])
+		case 3:
+			x.hist(ids[r.Intn(len(ids))])
+		}
+	}
+}
+
+func mappingOp(x *sut, r *verifx.Rng, nkeys, nmetrics int) {
+	pickID := func() int32 {
+		if len(x.everID) > 0 && r.Chance(3, 4) {
+			ids := make([]int, 0, len(x.everID))
+			for id := range x.everID {
+				ids = append(ids, int(id))
+			}
+			sort.Ints(ids)
+			return int32(ids[r.Intn(len(ids))])
+		}
+		return int32(r.Range(-1, 12))
+	}
+	switch r.Pick(60, 6, 8, 8, 4, 4, 3) {
+	case 0:
+		x.gc(r.Intn(nmetrics), r.Intn(nkeys))
+	case 1:
+		n := r.Range(1, 3)
+		ks := make([]int, n)
+		vs := make([]int32, n)
+		for i := range ks {
+			ks[i] = r.Intn(nkeys)
+			vs[i] = pickID()
+			if r.Chance(1, 4) {
+				vs[i] = int32(r.Range(1, 40))
+			}
+		}
+		x.put(ks, vs)
+	case 2:
+		n := r.Range(1, 4)
+		ids := make([]int32, n)
+		for i := range ids {
+			ids[i] = pickID()
+		}
+		x.del(ids)
+	case 3:
+		lim := []int64{0, -1, 1, 2, x.maxBudget - 1, x.maxBudget, x.maxBudget + 1, x.maxBudget + 3, 9999, 10000, 10001, 20000}[r.Intn(12)]
+		x.reset(r.Intn(nmetrics), lim)
+	case 4:
+		x.byval(r.Intn(nkeys))
+	case 5:
+		x.byid(pickID())
+	case 6:
+		x.newmaps(int32(r.Range(-1, 8)), []int32{-1, 0, 1, 2, 3, 1000, 60000}[r.Intn(7)])
+	}
+}
+
+func historyC15(h *verifx.H, r *verifx.Rng) {
+	x := openSut(h, 1000, 3600, 10, 1000000, int64(r.Range(1_000_000, 2_000_000)))
+	defer x.close()
+	big := r.Chance(1, 25)
+	if big {
+		h.Stat("case.big-data", 1)
+	}
+	nops := r.Range(10, 45)
+	for i := 0; i < nops; i++ {
+		x.tick(r)
+		if r.Chance(1, 12) {
+			mappingOp(x, r, 6, 2)
+		} else {
+			entityOp(x, r, big)
+		}
+		if r.Chance(1, 6) {
+			x.dump()
+		}
+	}
+	x.journalWalk(0, int64(r.Range(1, 3)))
+	x.journal(0, 1000)
+	x.dump()
+	if x.flags["edited"] && (x.flags["renamed"] || x.flags["name-reuse"]) && x.flags["stale-rejected"] {
+		h.NonTrivial("edit+rename/reuse+stale-rejected")
+	}
+}
+
+// raceC15: identical requests from 8 goroutines against the same version (the replies do not depend on which goroutine
+// wins, so the output is deterministic); the op lines are printed winner first.
+func raceC15(h *verifx.H, r *verifx.Rng) {
+	x := openSut(h, 1000, 3600, 10, 1000000, int64(r.Range(1_000_000, 2_000_000)))
+	defer x.close()
+	for i := r.Range(0, 5); i > 0; i-- {
+		entityOp(x, r, false)
+	}
+	rounds := r.Range(1, 4)
+	for round := 0; round < rounds; round++ {
+		x.tick(r)
+		typ := []int32{0, 0, 2, 4, 1}[r.Intn(5)]
+		var a saveReq
+		kind := r.Intn(3)
+		ids := knownIDs(x)
+		switch {
+		case kind == 0 || len(ids) == 0: // racing creates of the same name
+			a = saveReq{n: x.randName(r, typ), create: true, typ: typ, dtag: r.Intn(100), dlen: 4, meta: 1}
+			h.Stat("race.create", 1)
+		case kind == 1: // racing edits from the current version (maybe a rename)
+			id := ids[r.Intn(len(ids))]
+			a = saveReq{n: parseStrName(x.nm[id]), id: id, oldVersion: x.cur[id], typ: x.typ[id], dtag: r.Intn(100), dlen: 4, meta: 2}
+			if r.Bool() && a.typ != 4 {
+				a.n = name{0, r.Range(7, 9)}
+			}
+			h.Stat("race.edit", 1)
+		default: // racing edits from a stale version: nobody may win
+			id := ids[r.Intn(len(ids))]
+			a = saveReq{n: parseStrName(x.nm[id]), id: id, oldVersion: x.cur[id] + 1, typ: x.typ[id], dtag: r.Intn(100), dlen: 4, meta: 3}
+			h.Stat("race.stale", 1)
+		}
+		const K = 8
+		type res struct {
+			e   tlmetadata.Event
+			err error
+		}
+		out := make([]res, K)
+		var wg sync.WaitGroup
+		start := make(chan struct{})
+		for g := 0; g < K; g++ {
+			wg.Add(1)
+			go func(g int) {
+				defer wg.Done()
+				<-start
+				e, err := x.doSave(a)
+				out[g] = res{e, err}
+			}(g)
+		}
+		close(start)
+		wg.Wait()
+		sort.SliceStable(out, func(i, j int) bool { return out[i].err == nil && out[j].err != nil })
+		wins := 0
+		for _, o := range out {
+			if o.err == nil {
+				wins++
+			}
+		}
+		for _, o := range out {
+			h.Op("%s", x.saveOp(a))
+			x.observeSave(a, o.e, o.err)
+		}
+		// ---- oracle: of several edits racing from the same version at most one succeeds; exactly one when the request
+		// is valid on its own (decided by the sequential replies: the first one is what a lone request would get)
+		if wins > 1 {
+			h.Viol("race-multiple-winners", "%d of %d identical racing requests succeeded: %s", wins, K, x.saveOp(a))
+		}
+		h.Stat(fmt.Sprintf("race.winners.%d", wins), 1)
+		if wins == 1 {
+			h.NonTrivial("race-one-winner")
+		}
+	}
+	x.journalWalk(0, 2)
+	x.dump()
+}
+
+func historyC19(h *verifx.H, r *verifx.Rng) {
+	maxBudget := []int64{1, 2, 3, 3, 5, 8, 1000}[r.Intn(7)]
+	step := []uint32{1, 7, 60, 60, 3600}[r.Intn(5)]
+	bonus := []int64{0, 1, 1, 2, 10}[r.Intn(5)]
+	global := []int64{0, 0, 0, 2, 5, 1000000}[r.Intn(6)]
+	x := openSut(h, maxBudget, step, bonus, global, int64(r.Range(1_000_000, 2_000_000)))
+	defer x.close()
+	nkeys := r.Range(4, 40)
+	nmetrics := r.Range(1, 4)
+	nops := r.Range(15, 70)
+	for i := 0; i < nops; i++ {
+		x.tick(r)
+		if r.Chance(1, 15) {
+			entityOp(x, r, false)
+		} else {
+			mappingOp(x, r, nkeys, nmetrics)
+		}
+		if r.Chance(1, 8) {
+			x.dump()
+		}
+	}
+	x.newmaps(0, 1000)
+	x.dump()
+	if x.flags["flood"] && x.flags["limited"] {
+		h.NonTrivial("flood-limit-hit")
+	}
+	if x.flags["deleted"] {
+		h.NonTrivial("deleted-then-continued")
+	}
+}
+
+func pureC19(h *verifx.H, r *verifx.Rng) {
+	h.Op("cfg 1000 3600 10 1000000")
+	edge := func(c int64) int64 { return c + int64(r.Range(-2, 2)) }
+	for i := 0; i < 60; i++ {
+		max := []int64{0, 1, 3, 500, 1000}[r.Intn(5)]
+		step := []uint32{1, 5, 60, 3600, 86400}[r.Intn(5)]
+		bonus := []int64{0, 1, 10, 100}[r.Intn(4)]
+		old := []int64{edge(0), edge(max), int64(r.Range(-5, 20)), 9999, 10000}[r.Intn(5)]
+		expense := int64(r.Range(0, 2))
+		last := uint32(r.U64())
+		var now uint32
+		switch r.Intn(5) {
+		case 0:
+			now = last
+		case 1:
+			now = last + uint32(r.Intn(3*int(step)))
+		case 2:
+			now = last - uint32(r.Range(1, 3*int(step))) // clock went backwards: unsigned wrap
+		case 3:
+			now = last + step*uint32(r.Range(1, 2000))
+		case 4:
+			now = uint32(r.U64())
+		}
+		h.Op("calc %d %d %d %d %d %d %d", old, expense, last, now, max, bonus, step)
+		res := metadata.VerifCalcBudget(old, expense, last, now, max, bonus, step)
+		h.Obs("r %d", res)
+		// direct oracle: the result never exceeds what was there plus the bonus of the elapsed steps, and never max
+		if res > old-expense+int64((now-last)/step)*bonus {
+			h.Viol("calc-budget-too-large", "calcBudget(%d,%d,%d,%d,%d,%d,%d)=%d", old, expense, last, now, max, bonus, step, res)
+		}
+		if old <= max && expense >= 1 && res >= max {
+			h.Viol("calc-budget-over-max", "calcBudget(%d,%d,%d,%d,%d,%d,%d)=%d", old, expense, last, now, max, bonus, step, res)
+		}
+		h.Stat("pure.calc", 1)
+		unix := int64(r.U64() % uint64(3*two32/2))
+		h.Op("round %d %d", unix, step)
+		rt := metadata.VerifRoundTime(unix, step)
+		h.Obs("r %d", rt)
+		if rt%step != 0 || uint32(unix)-rt >= step {
+			h.Viol("round-time", "roundTime(%d,%d)=%d", unix, step, rt)
+		}
+	}
+	h.NonTrivial("pure")
+}
+
+// scriptCase replays op lines ("> save …" or "save …", one per line) from the file named by -arg on the real DBV2:
+// used for corpus files and to confirm model-found witnesses on the implementation.
+func scriptCase(h *verifx.H) {
+	raw, err := os.ReadFile(h.Arg)
+	if err != nil {
+		panic(err)
+	}
+	var x *sut
+	atoi := func(s string) int64 { v, _ := strconv.ParseInt(s, 10, 64); return v }
+	for _, line := range strings.Split(string(raw), "\n") {
+		t := strings.Fields(strings.TrimPrefix(strings.TrimSpace(line), ">"))
+		if len(t) == 0 || strings.HasPrefix(t[0], "@") || strings.HasPrefix(t[0], "<") || strings.HasPrefix(t[0], "#") || strings.HasPrefix(t[0], "!") {
+			continue
+		}
+		if t[0] == "cfg" && len(t) == 5 {
+			if x != nil {
+				x.close()
+			}
+			x = openSut(h, atoi(t[1]), uint32(atoi(t[2])), atoi(t[3]), atoi(t[4]), 1_000_000)
+			continue
+		}
+		if x == nil {
+			x = openSut(h, 1000, 3600, 10, 1000000, 1_000_000)
+		}
+		switch {
+		case t[0] == "save" && len(t) == 11:
+			var n name
+			fmt.Sscanf(t[1], "%d:%d", &n.ns, &n.loc)
+			x.now = atoi(t[10])
+			x.save(saveReq{n: n, id: atoi(t[2]), oldVersion: atoi(t[3]), dtag: int(atoi(t[4])), dlen: int(atoi(t[5])), create: t[6] == "1",
+				del: uint32(atoi(t[7])), typ: int32(atoi(t[8])), meta: int(atoi(t[9]))})
+		case t[0] == "journal" && len(t) == 3:
+			x.journal(atoi(t[1]), atoi(t[2]))
+		case t[0] == "getv" && len(t) == 3:
+			x.getv(atoi(t[1]), atoi(t[2]))
+		case t[0] == "hist" && len(t) == 2:
+			x.hist(atoi(t[1]))
+		case t[0] == "gc" && len(t) == 4:
+			x.now = atoi(t[3])
+			x.gc(int(atoi(t[1])), int(atoi(t[2])))
+		case t[0] == "put" && len(t) == 2:
+			var ks []int
+			var vs []int32
+			if t[1] != "-" {
+				for _, kv := range strings.Split(t[1], ",") {
+					p := strings.Split(kv, ":")
+					ks = append(ks, int(atoi(p[0])))
+					vs = append(vs, int32(atoi(p[1])))
+				}
+			}
+			x.put(ks, vs)
+		case t[0] == "del" && len(t) == 2:
+			var ids []int32
+			if t[1] != "-" {
+				for _, v := range strings.Split(t[1], ",") {
+					ids = append(ids, int32(atoi(v)))
+				}
+			}
+			x.del(ids)
+		case t[0] == "reset" && len(t) == 4:
+			x.now = atoi(t[3])
+			x.reset(int(atoi(t[1])), atoi(t[2]))
+		case t[0] == "byval" && len(t) == 2:
+			x.byval(int(atoi(t[1])))
+		case t[0] == "byid" && len(t) == 2:
+			x.byid(int32(atoi(t[1])))
+		case t[0] == "newmaps" && len(t) == 3:
+			x.newmaps(int32(atoi(t[1])), int32(atoi(t[2])))
+		case t[0] == "dump":
+			x.dump()
+		default:
+			h.Note("script: skipped %q", line)
+		}
+	}
+	if x != nil {
+		x.close()
+	}
+}
+
 func main() {
 	log.SetOutput(io.Discard)
-	t0 := time.Now()
-	for k := 0; k < 20; k++ {
-		dir, _ := os.MkdirTemp("", "verif-c15-")
-		bo := fsbinlog.Options{PrefixPath: dir, Magic: 3456}
-		if _, err := fsbinlog.CreateEmptyFsBinlog(bo); err != nil {
-			panic(err)
-		}
-		bl, err := fsbinlog.NewFsBinlog(nolog{}, bo)
-		if err != nil {
-			panic(err)
-		}
-		now := time.Unix(1000000, 0)
-		db, err := metadata.OpenDB(dir+"/db", metadata.Options{MaxBudget: 3, StepSec: 60, BudgetBonus: 1, GlobalBudget: 2, Now: func() time.Time { return now }}, bl)
-		if err != nil {
-			panic(err)
-		}
-		ctx := context.Background()
-		for i := 0; i < 30; i++ {
-			e, err := db.SaveEntity(ctx, fmt.Sprintf("m%d", i%7), 0, 0, "{}", true, 0, format.MetricEvent, "meta")
-			if k == 0 && i < 9 {
-				fmt.Println(e.Id, e.Version, err)
-			}
-			r, err := db.GetOrCreateMapping(ctx, "m", fmt.Sprintf("k%d", i))
-			if k == 0 && i < 9 {
-				fmt.Println(r, err)
-			}
-		}
-		if k == 0 {
-			e, err := db.SaveEntity(ctx, "neg", -5, 0, "{}", false, 0, format.MetricEvent, "meta")
-			fmt.Println(e, err)
-			e, err = db.SaveEntity(ctx, "m1", -6, 0, "{}", false, 0, format.MetricEvent, "meta")
-			fmt.Println(e, err)
-			e, err = db.SaveEntity(ctx, "after", 0, 0, "{}", true, 0, format.MetricEvent, "meta")
-			fmt.Println(e, err)
-			fmt.Println(db.PutMapping(ctx, []string{"a", "k0", "z"}, []int32{100, 2, 0}))
-			r, err := db.GetOrCreateMapping(ctx, "m2", "fresh")
-			fmt.Println(r, err)
-			st, err := metadata.VerifDump(db)
-			fmt.Printf("%+v %v\n", st, err)
-		}
-		db.Close()
-		os.RemoveAll(dir)
+	h := verifx.New()
+	if h.Mode == "script" {
+		h.N = 1
+		h.Cases(func(i int, r *verifx.Rng) { scriptCase(h) })
+		h.Done()
+		return
 	}
-	fmt.Println("elapsed", time.Since(t0))
+	h.Cases(func(i int, r *verifx.Rng) {
+		switch h.Mode {
+		case "c19":
+			if i%6 == 5 {
+				pureC19(h, r)
+			} else {
+				historyC19(h, r)
+			}
+		default:
+			if i%8 == 7 {
+				raceC15(h, r)
+			} else {
+				historyC15(h, r)
+			}
+		}
+	})
+	h.Done()
 }
